@@ -17,9 +17,29 @@ fi
 rm -f "$BUILD_LOG"
 BIN=target/verif/rustun-verif
 ID="$1"; shift
+REL_BIN=target/verifrel/rustun-verif
+# codec properties whose subject is the produced / accepted bytes are also decided against the library as a release build
+# compiles it (profile verifrel: no debug assertions, no overflow checks); same generated cases, same oracles
+second_pass() {
+  case "$ID" in C01|C02|C14) ;; *) return 0 ;; esac
+  if ! cargo build --profile verifrel --offline >"$BUILD_LOG.rel" 2>&1; then
+    tail -20 "$BUILD_LOG.rel"; rm -f "$BUILD_LOG.rel"
+    echo "INCONCLUSIVE: harness build (profile verifrel) failed"; return 2
+  fi
+  rm -f "$BUILD_LOG.rel"
+  VERIF_SECOND_PASS=1 target/verifrel/rustun-verif "$ID" "$1" | sed 's/^\(C[0-9][0-9] \(HELD\|VIOLATED\)\)/release-profile pass: \1/'
+  return ${PIPESTATUS[0]}
+}
 if [ "${1:-}" = "--replay" ]; then
   R="$2"; case "$R" in /*) ;; *) R="$ORIG_PWD/$R";; esac
-  exec "$BIN" "$ID" --replay "$R"
+  "$BIN" "$ID" --replay "$R"; rc=$?
+  # a case found by the release-profile pass may only reproduce against that build
+  case "$ID" in C01|C02|C14)
+    if [ $rc -eq 0 ] && cargo build --profile verifrel --offline >/dev/null 2>&1; then
+      "$REL_BIN" "$ID" --replay "$R" | sed 's/^REPLAY-PASS/REPLAY-PASS (release profile)/'; rc=${PIPESTATUS[0]}
+    fi ;;
+  esac
+  exit $rc
 fi
 TIER="${1:-${VERIF_TIER:-quick}}"
 # regression tier: committed minimal cases for this property are replayed first
@@ -30,8 +50,15 @@ for f in "$VERIF_DIR"/regress/"$ID"/*.json; do
   if [ $rc -ne 0 ]; then exit $rc; fi
 done
 if [ "$TIER" = "thorough" ] && [ -x "$VERIF_DIR/fuzz.sh" ]; then
+  second_pass quick; rc=$?
+  if [ $rc -ne 0 ]; then exit $rc; fi
+  case "$ID" in C01|C02|C14) export VERIF_REL_PASS=held ;; esac
   "$BIN" "$ID" thorough; rc=$?
   if [ $rc -ne 0 ]; then exit $rc; fi
   exec "$VERIF_DIR/fuzz.sh" "$ID"
 fi
-exec "$BIN" "$ID" "$TIER"
+exec_main() { exec "$BIN" "$ID" "$1"; }
+second_pass "$TIER"; rc=$?
+if [ $rc -ne 0 ]; then exit $rc; fi
+case "$ID" in C01|C02|C14) export VERIF_REL_PASS=held ;; esac
+exec_main "$TIER"
